@@ -23,7 +23,7 @@ import (
 // C05: multiplexed calls are isolated: unique ids, envelopes reach only their owner.
 
 type c05Case struct {
-	Family string `json:"family"` // ids | client-perm | server-perm
+	Family string `json:"family"`                   // ids | client-perm | server-perm
 	Lens   []int  `json:"script_lengths,omitempty"` // per call: 1 = unary, >=2 = stream with len-2 bodies (+header-bearing first, trailer)
 	From   int    `json:"from,omitempty"`
 	To     int    `json:"to,omitempty"`
@@ -183,7 +183,10 @@ func c05ClientPerm(tier string, lens []int, order []int, res *core.Result) {
 		pos[ci]++
 		hdr := &goatorepo.RequestHeader{Method: svc.MBidi, Source: "srv", Destination: "c0"}
 		var e *wire.Rpc
-		bb := func(x int) *goatorepo.Body { b, _ := proto.Marshal(&svc.BV{Value: c05Payload(ci, x)}); return &goatorepo.Body{Data: b} }
+		bb := func(x int) *goatorepo.Body {
+			b, _ := proto.Marshal(&svc.BV{Value: c05Payload(ci, x)})
+			return &goatorepo.Body{Data: b}
+		}
 		switch {
 		case lens[ci] == 1:
 			hdr.Method = svc.MUnary
@@ -297,7 +300,10 @@ func c05ServerPerm(tier string, lens []int, order []int, res *core.Result) {
 		id := uint64(100 + ci)
 		tag := fmt.Sprintf("k%d", ci)
 		hdr := &goatorepo.RequestHeader{Method: svc.MClient, Source: "c0", Destination: "srv", Headers: []*goatorepo.KeyValue{{Key: svc.TagKey, Value: tag}}}
-		bb := func(x int) *goatorepo.Body { b, _ := proto.Marshal(&svc.BV{Value: c05Payload(ci, x)}); return &goatorepo.Body{Data: b} }
+		bb := func(x int) *goatorepo.Body {
+			b, _ := proto.Marshal(&svc.BV{Value: c05Payload(ci, x)})
+			return &goatorepo.Body{Data: b}
+		}
 		var e *wire.Rpc
 		switch {
 		case lens[ci] == 1:
@@ -572,11 +578,11 @@ func c05Run(tier string, seed int64, idx int) *core.Result {
 
 func init() {
 	core.Register(&core.Prop{
-		ID:    "C05",
-		Level: "exploration",
-		Rule:  "(perm) for each configuration of k<=3 (thorough also 4) outstanding calls with per-call scripts of 1 (unary) or 2..6 envelopes, EVERY order-preserving merge (multiset permutation) of the scripts is played on a fresh connection: by a scripted server against a real client (replies, headers, bodies, trailers, distinct statuses per call) and by a scripted client against a real server (requests, opens, bodies, half-closes); each call/handler must observe exactly its own script. (ids) histories of 1280 calls per connection (quick 8, thorough 80 connections), 64 callers released from a barrier per burst, unary and streams mixed, every 4th history through the proxy in bursts of 12, and ending with calls whose write is reported failed although it was delivered: ids on the wire pairwise distinct, one id per call, every call sees only its own echo. (websocket) quick 6 / thorough 48 cases of 2..16 unary calls and 2..8 echo streams at once over the shipped websocket transport on loopback sockets with stalling writes, payloads 0..64 KiB: no call or stream sees foreign content (calls that merely fail are counted, not judged here; 30 s wall bound = inconclusive). distinct_nontrivial = interleavings enumerated (all distinct) + id histories.",
-		Plan:  func(tier string, seed int64) int { return len(c05List(tier)) },
-		Run:   c05Run,
+		ID:         "C05",
+		Level:      "exploration",
+		Rule:       "(perm) for each configuration of k<=3 (thorough also 4) outstanding calls with per-call scripts of 1 (unary) or 2..6 envelopes, EVERY order-preserving merge (multiset permutation) of the scripts is played on a fresh connection: by a scripted server against a real client (replies, headers, bodies, trailers, distinct statuses per call) and by a scripted client against a real server (requests, opens, bodies, half-closes); each call/handler must observe exactly its own script. (ids) histories of 1280 calls per connection (quick 8, thorough 80 connections), 64 callers released from a barrier per burst, unary and streams mixed, every 4th history through the proxy in bursts of 12, and ending with calls whose write is reported failed although it was delivered: ids on the wire pairwise distinct, one id per call, every call sees only its own echo. (websocket) quick 6 / thorough 48 cases of 2..16 unary calls and 2..8 echo streams at once over the shipped websocket transport on loopback sockets with stalling writes, payloads 0..64 KiB: no call or stream sees foreign content (calls that merely fail are counted, not judged here; 30 s wall bound = inconclusive). distinct_nontrivial = interleavings enumerated (all distinct) + id histories.",
+		Plan:       func(tier string, seed int64) int { return len(c05List(tier)) },
+		Run:        c05Run,
 		Exhaustive: func(string) bool { return true },
 		MaxStats:   []string{"max_ids_on_one_connection"},
 		RequiredStats: func(string) []string {
